@@ -1,13 +1,13 @@
 """Which units exist.  Verus units are modules with a UNIT; Kani units are defined below."""
-from units import u2_send, u3_recv, u23_roundtrip, u7_ipc, u6_router, u4_conv
+from units import u2_send, u3_recv, u23_roundtrip, u7_ipc, u6_router, u4_conv, u8_shm, u5_set, u6b_proxy
 from vf.kani import KaniUnit
 
-VERUS_UNITS = [u2_send.UNIT, u3_recv.UNIT, u23_roundtrip.UNIT, u7_ipc.UNIT, u6_router.UNIT, u4_conv.UNIT]
+VERUS_UNITS = [u2_send.UNIT, u3_recv.UNIT, u23_roundtrip.UNIT, u7_ipc.UNIT, u6_router.UNIT, u4_conv.UNIT, u8_shm.UNIT, u5_set.UNIT, u6b_proxy.UNIT]
 
 K_LEDGER = KaniUnit(
     name="k_ledger", harness_file="kani/harness_unix.rs", append_to="src/platform/unix/mod.rs",
     harnesses=["ledger_connect", "ledger_channel", "ledger_receiver_consume", "ledger_sender_clones",
-               "ledger_opaque_channel", "ledger_shared_memory_drop"],
+               "ledger_opaque_channel", "ledger_shared_memory_drop", "ledger_shared_memory_clone"],
     props=["C11", "C03", "C16", "C04"],
     id_props=[("kani.ledger.sender_", ["C11", "C03"]), ("kani.ledger.opaque_", ["C11", "C16"]),
               ("kani.ledger.consume", ["C11", "C04"]), ("kani.ledger.moved_", ["C11", "C04"]), ("kani.ledger.consumed_", ["C11", "C04"]),
